@@ -44,6 +44,10 @@ BAD_PAINT = [
     'text:<svg xmlns="http://www.w3.org/2000/svg" viewBox="0 0 100 100"><rect x="10" y="10" width="50" height="50" fill="#1234567"/></svg>',
     'text:<svg xmlns="http://www.w3.org/2000/svg" viewBox="0 0 100 100"><rect x="10" y="10" width="50" height="50" fill="#GGHHII"/></svg>',
     'text:<svg xmlns="http://www.w3.org/2000/svg" viewBox="0 0 100 100"><rect x="10" y="10" width="50" height="50" fill="rgb(1,2,3,4)"/></svg>',
+    'text:<svg xmlns="http://www.w3.org/2000/svg" viewBox="0 0 100 100"><rect x="10" y="10" width="50" height="50" fill="rgb(100%, 0%, 0%)"/></svg>',
+    'text:<svg xmlns="http://www.w3.org/2000/svg" viewBox="0 0 100 100"><rect x="10" y="10" width="50" height="50" fill="rgba(255,0,0,0.5)"/></svg>',
+    'text:<svg xmlns="http://www.w3.org/2000/svg" viewBox="0 0 100 100"><rect x="10" y="10" width="50" height="50" fill="hsl(0,100%,50%)"/></svg>',
+    'text:<svg xmlns="http://www.w3.org/2000/svg" viewBox="0 0 100 100"><rect x="10" y="10" width="50" height="50" fill="rgb(a,b,c)"/></svg>',
     'text:<svg xmlns="http://www.w3.org/2000/svg" viewBox="0 0 100 100"><defs><linearGradient id="g" x1="0" y1="0" x2="100" y2="0" gradientUnits="userSpaceOnUse"><stop offset="0" stop-color="#FF00FF00FF00"/><stop offset="1" stop-color="blue"/></linearGradient></defs><rect x="10" y="10" width="50" height="50" fill="url(#g)"/></svg>',
 ]
 PALETTE_A = 'text:<svg xmlns="http://www.w3.org/2000/svg" viewBox="0 0 100 100"><path fill="var(--color1, #FF0000)" d="M10,10 L90,10 L90,90 L10,90 Z"/></svg>'
@@ -163,17 +167,27 @@ def gen_case(seed, idx):
         srcs = {p_: c_ for p_, c_ in srcs.items() if isinstance(c_, str) and "gradient" not in c_ and "clock" not in c_ and "263a" not in c_}
         bad[new[0]] = r.choice(["corpus:radial_gradient_rect.svg", "corpus:radial_gradient_square.svg"])
     elif defect == "D6":
-        opts["bitmap_resolution"] = r.choice([256, 257, 300])
+        if r.random() < 0.5:
+            opts["bitmap_resolution"] = r.choice([256, 256, 257, 300])
+        else:
+            # the default-ish height is fine, but a 2:1 picture is 256 px WIDE at 128 px height: one pixel over the limit
+            opts["bitmap_resolution"] = 128
+            new = gen.source_set(gen.rng(seed, "c17", idx, "bad"), 1)[0]
+            if new[2] in cps_of.values() or new[0] in srcs:
+                return None
+            bad[new[0]] = {"kind": "rects", "n": 3, "seed": idx % 40, "viewbox": [0, 0, 200, 100]}
         opts["use_pngquant"] = False
         opts["use_zopflipng"] = False
     warm = r.random() < 0.5 and defect not in ("D5", "D1v")
     ops = [{"op": "write", "path": p, "content": c} for p, c in sorted(srcs.items())]
     rs = gen.rng(seed, "c17", idx, "sched")
 
+    verbose = r.choice([[], [], [], ["-v", "1"], ["--verbosity", "1"], ["-v", "-1"]])  # how chatty the build is must not change whether it fails
+
     def argv_for(paths, o):
         a = list(paths)
         r.shuffle(a)
-        flags = gen.flag_args(o)
+        flags = gen.flag_args(o) + verbose
         return flags + a if r.random() < 0.7 else a + flags
 
     # "same-name" warm-up: the defective files first exist with VALID content and are part of the warm build,
@@ -205,7 +219,7 @@ def gen_case(seed, idx):
         ops.append({"op": "write", "path": p, "content": c, "keep": True})
     if toml is not None:
         ops.append({"op": "write", "path": "config.toml", "content": "text:" + toml, "keep": True})
-        argv = ["config.toml"]
+        argv = ["config.toml"] + verbose
     else:
         argv = argv_for(sorted(list(srcs) + list(bad)), opts)
     mixed = defect == "D1n" and r.random() < 0.5
@@ -213,7 +227,7 @@ def gen_case(seed, idx):
         # the valid sources are listed in a configuration file, the namesake from the other directory is given on the command line
         ops.append({"op": "write", "path": "config.toml", "content": "text:" + gen.toml_config(opts, sorted(srcs)), "keep": True})
         extra = sorted(bad)
-        argv = (["config.toml"] + extra) if r.random() < 0.5 else (extra + ["config.toml"])
+        argv = ((["config.toml"] + extra) if r.random() < 0.5 else (extra + ["config.toml"])) + verbose
     companion = toml is None and not mixed and defect not in ("D6", "D5") and r.random() < 0.25
     if companion:
         # the defective configuration is built together with a healthy one: the invocation must still fail and the
@@ -223,7 +237,7 @@ def gen_case(seed, idx):
         good["family"] = "Good Companion"
         ops.append({"op": "write", "path": "bad.toml", "content": "text:" + gen.toml_config(opts, sorted(list(srcs) + list(bad))), "keep": True})
         ops.append({"op": "write", "path": "good.toml", "content": "text:" + gen.toml_config(good, sorted(srcs)), "keep": True})
-        argv = ["bad.toml", "good.toml"] if r.random() < 0.5 else ["good.toml", "bad.toml"]
+        argv = (["bad.toml", "good.toml"] if r.random() < 0.5 else ["good.toml", "bad.toml"]) + verbose
     pos = min([argv.index(p) for p in bad if p in argv] or [0]) if toml is None else 0
     ops.append({"op": "invoke", "cwd": ".", "argv": argv, "build_dir": "build", "label": "bad1", "sched": gen.sched(rs), "final": True})
     ops.append({"op": "invoke", "cwd": ".", "argv": argv, "build_dir": "build", "label": "bad2", "sched": gen.sched(rs), "final": True})
